@@ -39,6 +39,21 @@ CLAIMED = {
    text="Calls write_code_hex/write_eeprom_hex on images of every length 0..600 and every length within ±20 of each 64 KiB multiple up to the largest flash in the device table (thorough: more lengths up to 8 MiB and the full build_str→writer pipeline), with position-dependent contents, and decodes each file with a strict independent reader: only well-formed records, valid checksums, one final EOF, every image byte exactly once at its address, none elsewhere.",
    note="Trusted base: refmodel/ihex.rs (self-tested on hand-made good and bad files).",
    design="§6 C07"),
+ "C02": dict(
+   technique="reference-layout monitor over generated programs + hook-trace checker (runtime execution of build_str, pass-1/pass-2 event log)",
+   text="Random layout programs (interleaved .cseg/.dseg/.eseg, both instruction lengths, odd/even .db, word data, .byte, own-line/inline labels, forward .org, devices with different RAM starts and the reduced core) are assembled by the real tool; both images, RAM extent and sizes must equal an independent IR-level reference layout (labels are exposed through `.dd label` tables), and the hook trace must show every pass-1 size equal to the pass-2 emission and every label event equal to the reference value. 1 in 12 programs carries a backward .org that must fail.",
+   note="Trusted base: refmodel/layout.rs + isa.rs; device figures from DEVICES. Every generated .org is directly followed by an item of its segment. Two open known findings (`.org 0` after code, `.byte <non-literal>`), see KNOWN_FINDINGS.txt.",
+   design="§6 C02"),
+ "C06": dict(
+   technique="reference-model monitor over generated data programs + boundary grid (runtime execution, byte-exact oracle, hook-trace checker)",
+   text="Programs of .db/.dw/.dd/.dq lines in flash and EEPROM with 0-12 operands mixing boundary literals, computed values, symbols, random expressions and strings (empty, comment look-alikes, non-ASCII), `.byte n` between EEPROM data, and single faults (value that does not fit, string in a word directive, data in .dseg) must produce exactly the reference bytes or fail; plus the complete width x boundary-value grid in both segments.",
+   note="Trusted base: refmodel/layout.rs data rules; fits = signed or unsigned representation of the element width.",
+   design="§6 C06"),
+ "C08": dict(
+   technique="metamorphic + reference monitor over enumerated truth assignments and random nested chains, with a hook-trace checker of lines reaching the assembling path",
+   text="For all truth assignments of all chain shapes up to 3 arms (thorough 5), nested and with hostile unselected content, and for random chains nested up to 4 deep: build(full) must equal build(program with unselected and conditional lines blanked) and the reference image/messages; the LINE hook trace must contain every selected line and no line of an unselected branch.",
+   note="Trusted base: refmodel/layout.rs conditional semantics and the IR printer (one line per primitive node). Unselected branches contain .error, clobbering definitions, duplicate labels, garbage, unterminated .macro, missing .include, other .device.",
+   design="§6 C08"),
 }
 
 PENDING_REASON = "check not built yet in this round (work in progress; design in DESIGN.md §6)"
